@@ -2,6 +2,7 @@
 # tools/seed_run.sh <patch.diff> <tier> <Cxx> [Cxx...]
 # Apply a seeded change to /repo, run the given checks, undo the change. Prints one line per check.
 patch="$1"; tier="$2"; shift 2
+export VERIF_EVIDENCE_DIR=/tmp/seed-evidence VERIF_REPLAYS_DIR=/tmp/seed-replays; mkdir -p $VERIF_EVIDENCE_DIR $VERIF_REPLAYS_DIR
 cd /repo || exit 2
 if [ -n "$(git status --porcelain --untracked-files=no)" ]; then echo "/repo is not clean"; exit 2; fi
 git apply "$patch" || { echo "patch does not apply"; exit 2; }
